@@ -179,7 +179,9 @@ def build(seed, tier, log=vp.log):
     cout_all = vp.pipe_lines(model, creq)
     cout = cout_all[len(withsx):2 * len(withsx)]
     for g, a in zip(withsx, cout_all[2 * len(withsx):]):
-        g.wf = (a == "WF\t1") if a.startswith("WF\t") else None     # WellFormed.well_formed of the grammar
+        f = a.split("\t")
+        g.wf = (f[1] == "1") if f[0] == "WF" else None        # WellFormed.well_formed of the grammar
+        g.wf_lr = (f[2] == "1") if f[0] == "WF" and len(f) > 2 else None   # LRTerm.well_formed_lr (with @leftrec rules)
     for g, a in zip(withsx, cout):
         g.mcompile = a
         if a.startswith("OK\t") and g.gen == "CODE":
